@@ -108,6 +108,11 @@ func lit(lines []string) string {
 func (p Prog) source(pkg string) (src, check string) {
 	var b, cb strings.Builder
 	b.WriteString("// Package " + pkg + " is a C16 case.\n// +gengo:runtimedoc\npackage " + pkg + "\n\n")
+	if (p.Shape+p.TypeDoc+p.FieldDoc)%3 == 0 {
+		// every third program is "generated from a grammar": a //line directive renames the file and renumbers
+		// its lines from here on
+		b.WriteString("//line shapes.y:12\n")
+	}
 	cb.WriteString("package " + pkg + "\n\nimport \"" + modPath + "/verifkit\"\n\nvar _ = verifkit.HasRuntimeDoc\n\nfunc VerifRun() (checks int, fails []string) {\n")
 	expect := func(label, ptr string, names []string, want []string, ok bool) {
 		fmt.Fprintf(&cb, "\tverifkit.CheckDoc(&checks, &fails, %q, %s, %s, %s, %v)\n", label, ptr, lit(names), lit(want), ok)
@@ -397,7 +402,7 @@ func replay(c *core.Ctx, raw json.RawMessage) {
 func init() {
 	core.Register(&core.Prop{
 		ID: "C16", Level: "model_checking", Run: run, Replay: replay, Shards: 4,
-		Rule: "15 type shapes (exported/unexported/generic structs, embedding by value and by pointer, only-unexported fields, defined string/map/slice/func, interface, anonymous/empty/foreign/pointer field types, embedding of unexported and non-struct types) x 14 type-doc texts x 11 field-doc texts (quotes, backslashes, backquotes, %, @name', Unicode, blank line, tag line, leading name, name twice, longer word with the name as prefix); thorough: full product, quick: the diagonal + everything against none/plain/leading-name + a third of the rest. Each package is generated twice (byte-identical; built with the map-order seam the second run iterates every map of library and generator in descending order), compiled with the package and a harness-written check file, and run: RuntimeDoc() and RuntimeDoc(name) for every field, delegated field and unknown name vs the doc lines the harness wrote. Non-trivial = some doc text present; states = (shape, failed?)",
+		Rule: "15 type shapes (exported/unexported/generic structs, embedding by value and by pointer, only-unexported fields, defined string/map/slice/func, interface, anonymous/empty/foreign/pointer field types, embedding of unexported and non-struct types) x 14 type-doc texts x 11 field-doc texts (quotes, backslashes, backquotes, %, @name', Unicode, blank line, tag line, leading name, name twice, longer word with the name as prefix); thorough: full product, quick: the diagonal + everything against none/plain/leading-name + a third of the rest. Every third package carries a //line directive that renames its source file. Each package is generated twice (byte-identical; built with the map-order seam the second run iterates every map of library and generator in descending order), compiled with the package and a harness-written check file, and run: RuntimeDoc() and RuntimeDoc(name) for every field, delegated field and unknown name vs the doc lines the harness wrote. Non-trivial = some doc text present; states = (shape, failed?)",
 		Assumptions: []string{
 			"field docs starting with the field name, embedded fields with their own doc, [[embed]] lines and lines starting with go: are outside the alphabet",
 			"'leading type name removed' is read as: the first word is the name",
